@@ -189,6 +189,11 @@ theorem sum_two_pow_testBit (s : Finset ℕ) (k : ℕ) : (∑ i ∈ s, 2 ^ i).te
   · have : ¬ (∑ i ∈ s, 2 ^ i).testBit k = true := fun hb => hk (hm.mp hb)
     simp [hk, this]
 
+/-- [B14] order of naturals by the highest differing bit (used for the shortlex / longlex sort keys of bitsets) -/
+theorem B14_lt_of_testBit {n m : ℕ} (i : ℕ) (hn : n.testBit i = false) (hm : m.testBit i = true)
+    (hnm : ∀ j, i < j → n.testBit j = m.testBit j) : n < m :=
+  Nat.lt_of_testBit i hn hm hnm
+
 #print axioms B1_testBit_land
 #print axioms B4_testBit_shiftRight
 #print axioms B6_lowest_bit
